@@ -1348,6 +1348,14 @@ class Engine(object):
       log.info("Failed to apply useractions; reverting: %r", e)
       self._undo_to_checkpoint(checkpoint)
 
+      # Undo actions don't carry formula results. Recalculate what the reverted changes made
+      # dirty, so that values computed within the failed bundle don't linger, only to be reported
+      # as changes by the next bundle.
+      try:
+        self._bring_all_up_to_date()
+      except Exception:
+        log.error("Error recalculating after revert on failure: %s", traceback.format_exc())
+
       # Check schema consistency again. If this fails, something is really wrong (we tried to go
       # back to a good state but failed). We'll just report it loudly.
       try:
